@@ -256,6 +256,9 @@ type Ext struct {
 type TypeCase struct {
 	Ctor string
 	T    T
+	// Bind: the Lean name the constructor's field gets when the Go switch binds no variable (`switch x.(type)`); the
+	// configuration maps the type assertions `x.(T)` inside the clause to it
+	Bind string
 }
 
 type FnSpec struct {
@@ -1564,6 +1567,11 @@ func (t *tr) binary(x *ast.BinaryExpr) (string, T) {
 		return t.wrap(at, "("+a+" - "+b+")"), at
 	case token.MUL:
 		return t.wrap(at, "("+a+" * "+b+")"), at
+	case token.REM:
+		// Go's % truncates toward zero (a constant non-zero divisor only: no division by zero to model)
+		if tv, ok := t.p.info.Types[x.Y]; ok && tv.Value != nil && tv.Value.ExactString() != "0" && at.Kind == "int" {
+			return "(Int.tmod " + a + " " + b + ")", at
+		}
 	}
 	t.fail(x, "binary %s", x.Op)
 	return "", tBad
@@ -2171,6 +2179,8 @@ func (t *tr) typeSwitchStmt(x *ast.TypeSwitchStmt) {
 		v := "_"
 		if bind != "" && bind != "_" {
 			v = t.declareT(bind, tc.T.Lean)
+		} else if tc.Bind != "" {
+			v = tc.Bind
 		}
 		t.emit("| %s %s =>", tc.Ctor, v)
 		t.ind++
